@@ -4,9 +4,10 @@ import runner
 from runner import EngineError, GOENV, NPROC, VERIF
 
 
-def build(ctx):
+def build(ctx, mr=False):
     s = ctx.mkscratch()
-    p = subprocess.run([os.path.join(VERIF, "lib", "e2build.sh"), s], env=GOENV, capture_output=True, text=True)
+    env = dict(GOENV, VERIF_BUILD_MR="1") if mr else GOENV
+    p = subprocess.run([os.path.join(VERIF, "lib", "e2build.sh"), s], env=env, capture_output=True, text=True)
     if p.returncode != 0:
         raise EngineError("E2 build failed:\n" + p.stdout[-3000:] + p.stderr[-2000:])
     return os.path.join(s, "idlx-bin"), os.path.join(s, "frugal")
@@ -27,9 +28,11 @@ def _shard(exe, frugal, mode, tier, i, n, work, extra):
         return {"error": "%s shard %d: bad output %s" % (mode, i, e)}
 
 
-def run_modes(ctx, modes, nshards=None, extra=None):
+def run_modes(ctx, modes, nshards=None, extra=None, mr=False):
     """Runs idlx modes sharded; returns merged (evaluations, nontrivial, samples, extras)."""
-    exe, frugal = build(ctx)
+    exe, frugal = build(ctx, mr)
+    if mr:
+        extra = (extra or []) + ["-frugal-mr", os.path.join(ctx.scratch, "frugal-mr")]
     n = nshards or NPROC
     jobs = [(m, i) for m in modes for i in range(n)]
     tot = {"evaluations": 0, "nontrivial": 0}
@@ -63,7 +66,7 @@ def run_modes(ctx, modes, nshards=None, extra=None):
 
 
 def run(ctx, spec):
-    tot, samples, extras = run_modes(ctx, spec["modes"], spec.get("nshards"))
+    tot, samples, extras = run_modes(ctx, spec["modes"], spec.get("nshards"), mr=spec.get("mr", False))
     cov = {"evaluations": tot["evaluations"], "distinct_nontrivial": tot["nontrivial"], "rule": spec["rule"],
            "samples": samples or ["none"], "exhaustive": True, "explanation": spec.get("explanation", "")}
     cov.update(extras)
